@@ -225,6 +225,9 @@ func genQRCase(t *rapid.T) QRCase {
 		}
 		content = []byte(string(sb))
 	}
+	if rapid.IntRange(0, 19).Draw(t, "latin1") == 0 {
+		content = []byte(latin1Text(t, 20))
+	}
 	c.Content = BStr(content)
 	return c
 }
